@@ -19,7 +19,8 @@ def run(tier):
                                   (s0 + 6, dict(nd=2, np=2, copies=2), "directed-import-past", 0, directed.import_past_content),
                                   (s0 + 7, dict(nd=2, np=1, copies=2), "directed-rep-corruption", 0, directed.rep_block_corruption),
                                   (s0 + 8, dict(nd=3, np=2, copies=2), "directed-rehash-silent-sync", 0, directed.rehash_silent_sync),
-                                  (s0 + 9, dict(nd=3, np=2, copies=2), "directed-zero-chg-second-disk", 0, directed.zero_chg_second_disk)],
+                                  (s0 + 9, dict(nd=3, np=2, copies=2), "directed-zero-chg-second-disk", 0, directed.zero_chg_second_disk),
+                                  (s0 + 10, dict(nd=2, np=3, copies=2), "directed-nohash-bad-parity", 0, directed.nohash_recovery_with_bad_parity)],
         scripts=[("F1s", "NoF1", "F1-chg-pasthash-is-new-hash"), ("F2", "NoF2", "F2-chg-pasthash-other-length")],
         rule="a trace is one seeded history on a real array (edits, complete/killed/partially skipped syncs, damage beyond "
              "and within the parity count, fix, check, scrub), validated step by step by TLC against ArrayTrace.tla; "
